@@ -30,7 +30,7 @@ func c07Frame(c *sim.Ctx) (frame []byte, fm []ref.Field, valid bool) {
 	t := c.T
 	cfg := specCfg(c)
 	a := gen.Packet(t, cfg) // incl. rare multi-megabyte PUBLISH frames
-	if t.Bool(1, 500) {
+	if t.Bool(1, 500) || c.Run == c07ShortRuns {
 		// a multi-megabyte PUBLISH (4-byte remaining length), on purpose
 		n := 2097152 + t.Int(1<<20)
 		if t.Bool(1, 2) {
@@ -44,6 +44,16 @@ func c07Frame(c *sim.Ctx) (frame []byte, fm []ref.Field, valid bool) {
 	if t.Bool(1, 4) {
 		frame = damageBody(t, frame)
 		valid = false
+	}
+	if t.Bool(1, 25) {
+		// the remaining length in an over-long (five or six byte) form: invalid,
+		// and it must be the SAME rejection under every delivery schedule
+		h := hdrLen(frame)
+		if rl, _, ok := lenientRL(frame[1:h]); ok {
+			forms := fiveByte(rl)
+			frame = append(append([]byte{frame[0]}, forms[t.Int(len(forms))]...), frame[h:]...)
+			fm, valid = nil, false
+		}
 	}
 	return
 }
